@@ -430,6 +430,45 @@ pub fn run(tier: Tier) -> Report {
         });
         rep.acc.merge(acc);
         base += nb * eps_list.len() as u64 * 2;
+        // products with a factor that is ALMOST the identity (closer than the laws' own tolerance):
+        // (I + eps*B) * A and A * (I + eps*B) for eps down to 1e-6 against eight fixed full matrices
+        let small_eps = [1e-5f64, 6e-6, 2e-6, 1e-6];
+        let partners: Vec<M3> = vec![
+            [[2.0, -1.0, 0.5], [1.5, 2.0, -2.0], [-0.5, 1.0, 2.0]],
+            [[-2.0, 2.0, 2.0], [2.0, -2.0, 2.0], [2.0, 2.0, -2.0]],
+            [[0.2126, 0.7152, 0.0722], [-0.1146, -0.3854, 0.5], [0.5, -0.4542, -0.0458]],
+            [[1.0, 0.0, 1.5748], [1.0, -0.1873, -0.4681], [1.0, 1.8556, 0.0]],
+            [[0.3, -1.7, 0.1], [1.9, 0.7, -0.3], [-1.7, 0.1, 1.9]],
+            [[0.0, 1.0, 0.0], [0.0, 0.0, 1.0], [1.0, 0.0, 0.0]],
+            [[2.0, 0.0, 0.0], [0.0, -0.5, 0.0], [0.0, 0.0, 1.5]],
+            [[1.0, 1.0, 1.0], [1.0, 1.0, 1.0], [1.0, 1.0, 1.0]],
+        ];
+        let total = nb * small_eps.len() as u64;
+        let acc = par_chunks(total, 1 << 10, |acc, lo, hi| {
+            for i in lo..hi {
+                let b = mat_from_index(&T3, i % nb);
+                let eps = small_eps[(i / nb) as usize];
+                let mut nm = [[0.0; 3]; 3];
+                for r in 0..3 {
+                    for c in 0..3 {
+                        nm[r][c] = if r == c { 1.0 } else { 0.0 } + eps * b[r][c];
+                    }
+                }
+                for a in &partners {
+                    for (x, y) in [(&nm, a), (a, &nm)] {
+                        let case = || json!({"kind":"c19","op":"mul_mat","a":mj(x),"b":mj(y)});
+                        if !record(acc, base + i, "f32", "almost-identity factor", f32i::check_mul_mat(x, y), case) || !record(acc, base + i, "f64", "almost-identity factor", f64i::check_mul_mat(x, y), case) {
+                            return;
+                        }
+                    }
+                }
+            }
+            acc.states += hi - lo;
+            acc.transitions += (hi - lo) * 32;
+            acc.bucket("mul_mat with an almost-identity factor (eps 1e-6..1e-5): exact product", hi - lo);
+        });
+        rep.acc.merge(acc);
+        base += total;
     }
     // mul_mat over {-1,0,1}^9 pairs
     {
@@ -472,7 +511,7 @@ pub fn run(tier: Tier) -> Report {
         rep.acc.merge(acc);
     }
     rep.bound = format!(
-        "all {} matrices over the {} alphabet x all vectors over it (mul_vec, mul_arr, transpose, identity, scalar_div, invert when |det|>=0.5); all 5^9 matrices over the non-dyadic alphabet x 125 vectors; the near-identity family s*(I+eps*B) for all B in {{-1,0,1}}^9, eps in {{5e-5,1.2e-4,1e-3,0.03}}, s in {{1,2}}; all 343^2 + 125^2 vector pairs; scalar_div by +-2^e and +-1.5*2^e for every exponent of f32 and f64 (subnormal included) of all 343 vectors (k1 d, k2 d, k3 d) with entries in [-2,2]; mul_mat on {} pairs over {{-1,0,1}}^9 and on A*A^T, A*B for all 5^9 non-dyadic A (B = the matrix at index 7919*i mod 5^9, a fixed bijection); the library's {} colour matrices pairwise; every case for f32 and f64",
+        "all {} matrices over the {} alphabet x all vectors over it (mul_vec, mul_arr, transpose, identity, scalar_div, invert when |det|>=0.5); all 5^9 matrices over the non-dyadic alphabet x 125 vectors; the near-identity family s*(I+eps*B) for all B in {{-1,0,1}}^9, eps in {{5e-5,1.2e-4,1e-3,0.03}}, s in {{1,2}}; (I+eps*B)*A and A*(I+eps*B) for eps in {{1e-5,6e-6,2e-6,1e-6}} against eight full matrices; all 343^2 + 125^2 vector pairs; scalar_div by +-2^e and +-1.5*2^e for every exponent of f32 and f64 (subnormal included) of all 343 vectors (k1 d, k2 d, k3 d) with entries in [-2,2]; mul_mat on {} pairs over {{-1,0,1}}^9 and on A*A^T, A*B for all 5^9 non-dyadic A (B = the matrix at index 7919*i mod 5^9, a fixed bijection); the library's {} colour matrices pairwise; every case for f32 and f64",
         tier.pick(5u64.pow(9), 7u64.pow(9)), tier.pick("5-value", "7-value"), 19683u64 * tier.pick(729, 19683), colour_matrices().len()
     );
     rep.rule = "public methods of yuvxyb_math::{Matrix,RowVector,ColVector} vs f64 definitions: 1e-5*max(1,|exact|) per entry; A*inv(A), inv(A)*A within 1e-4 of I; transpose and identity exact".into();
@@ -481,6 +520,7 @@ pub fn run(tier: Tier) -> Report {
     rep.guard("singular matrices filtered", rep.acc.buckets.iter().any(|(k, v)| k.contains("inverse not required") && *v > 0));
     rep.guard_bucket("mul_mat pairs over {-1,0,1}^9 exact");
     rep.guard_bucket("near-identity family s*(I+eps*B): all laws incl. inverse");
+    rep.guard_bucket("mul_mat with an almost-identity factor (eps 1e-6..1e-5): exact product");
     rep.guard_bucket("vector pairs: cross, dot, component_mul, scalar_div, accessors agree");
     rep.guard_bucket("scalar_div by +-2^e, +-1.5*2^e over the whole exponent range: element-wise");
     rep
